@@ -113,6 +113,31 @@ class Check(object):
                     raise Machinery(msg)
         return r
 
+    def apalache(self, module, inv, expect_error=False, timeout=300):
+        """Symbolic check with Apalache over unbounded integers (spec/apalache/<module>.tla, --length=0).  Returns True iff the
+        outcome is the expected one; an unexpected outcome is a machinery failure (the oracle itself would be wrong)."""
+        import shutil
+        import subprocess
+        import tempfile
+        tmp = tempfile.mkdtemp(prefix='apa_', dir=os.environ.get('VERIF_TMP'))
+        try:
+            cmd = ['apalache-mc', 'check', '--inv=' + inv, '--length=0', '--out-dir=' + tmp, os.path.join(VERIF, 'spec', 'apalache', module + '.tla')]
+            try:
+                pr = subprocess.run(cmd, stdout=subprocess.PIPE, stderr=subprocess.STDOUT, text=True, timeout=timeout, cwd=tmp)
+                out = pr.stdout
+            except Exception as e:      # noqa
+                out = 'apalache failed to run: %r' % e
+            ok = ('EXITCODE: OK' in out and 'NoError' in out) if not expect_error else ('Checker has found an error' in out)
+            self.cmds.append('apalache-mc check --inv=%s --length=0 spec/apalache/%s.tla' % (inv, module))
+            self.parts['apalache_%s_%s' % (module, inv)] = 'refuted as expected' if (ok and expect_error) else ('proved for all integers' if ok else 'UNEXPECTED')
+            if not ok:
+                msg = 'apalache %s/%s: unexpected outcome\n%s' % (module, inv, out[-1500:])
+                self.machinery_errors.append(msg)
+                raise Machinery(msg)
+            return True
+        finally:
+            shutil.rmtree(tmp, ignore_errors=True)
+
     # ------------------------------------------------------------------ cases
     @staticmethod
     def fp(obj):
